@@ -411,6 +411,15 @@ pub struct Analysis {
     pub lints: Vec<Diag>,
 }
 
+impl Drop for Analysis {
+    fn drop(&mut self) {
+        // the library's graphs are reference cycles: break them, or every analysis leaks
+        if let Ok(cfg) = &self.cfg {
+            riscv_analysis::verif_hooks::dispose(cfg);
+        }
+    }
+}
+
 impl Analysis {
     /// All diagnostics (parse errors, cfg error, lints).
     pub fn all_diags(&self) -> Vec<Diag> {
